@@ -79,6 +79,8 @@ def all_entries(model: EmitModel) -> list[str]:
 
 def get_paths(ctx: Ctx, entries: list[str] | None = None, gen: str = "compiler:CodeGenerator") -> dict[str, list[tuple[Path, Skeleton]]]:
     loop_max = 2 if ctx.tier == "thorough" else 1
+    # the read set of the emission model (its cache key below, plus what the interpreter resolves)
+    ctx.repo.touched.update({"compiler", "nodes", "nativetypes", "meta", "runtime", "idtracking", "visitor", "utils", "optimizer"})
     model = EmitModel(ctx.repo, gen)
     wanted = entries if entries is not None else all_entries(model)
     key = (ctx.repo.root, gen, loop_max)
